@@ -60,6 +60,26 @@ pub fn run(ctx: &Ctx) -> (&'static str, &'static str) {
     for k in 0..ctx.tier.pick(8, 300) {
         els.push((format!("seeded dense #{}", k), q12_from_coeffs(&(0..12).map(|_| rq(&mut rng)).collect::<Vec<_>>())));
     }
+    // coordinates whose IN-MEMORY (Montgomery) form is special: all-ones low limbs next to raw 1 (carry chains and double-width
+    // accumulations inside the tower arithmetic the easy part starts with), in the positions that meet in the first products
+    {
+        let rinv = Q1::new(alpha::pow2(384) % q).inv().unwrap();
+        let raw = |x: num_bigint::BigUint| Q1::new(x % q).mul(&rinv);
+        let one_raw = raw(num_bigint::BigUint::from(1u32));
+        for l in 1..=ctx.tier.pick(3usize, 5) {
+            let ones = raw(alpha::pow2(64 * l) - 1u32);
+            let mut c = vec![one_raw.clone(); 12];
+            c[0] = ones.clone(); // c0.c0.c0
+            els.push((format!("Montgomery-form coordinates: 2^{}-1 beside raw ones", 64 * l), q12_from_coeffs(&c)));
+            let mut c = vec![Q1::zero(); 12];
+            c[0] = ones.clone();
+            c[1] = one_raw.clone();
+            c[2] = one_raw.clone();
+            c[3] = one_raw.clone();
+            c[7] = raw(alpha::pow2(64 * l));
+            els.push((format!("Montgomery-form coordinates: sparse, 2^{}-1 and 2^{}", 64 * l, 64 * l), q12_from_coeffs(&c)));
+        }
+    }
     // reference values (parallel)
     let want: Vec<Option<Q12>> = par_map(els.len(), |i| if els[i].1.is_zero() { None } else { Some(final_exp_textbook(&els[i].1)) });
     let inj = ctx.injecting("C12");
